@@ -207,7 +207,16 @@ class Write:
                     over = {'pos': p0, 'm': m, 'labels': [x + 1000 for x in cur[p0:p0 + m]], 'values': [[float(rng.randint(50, 70)) for _ in range(nfix)] for _ in range(m)],
                             'how': rng.choice(['slice', 'list'])}
                     stats['write_kind']['unlimited+overwrite'] += 1
-                cases.append({'kind': 'unlimited', 'tkind': k, 'fixlabs': fixlabs, 'steps': steps, 'overwrite': over, 'fmt': rng.choice(['NETCDF4', 'NETCDF3_CLASSIC']) if all(not isinstance(x, str) for x in fixlabs) else 'NETCDF4'})
+                strad = None
+                if cur and over is None and len(pool) > len(cur) and rng.random() < 0.4:
+                    # one assignment through a LIST of positions that covers existing rows and rows beyond the end, in any order:
+                    # the existing rows keep their labels, each appended row gets the label supplied at its place in the list
+                    n_new = min(rng.randint(1, 2), len(pool) - len(cur)); n_old = rng.randint(1, min(2, len(cur)))
+                    posl = rng.sample(range(len(cur)), n_old) + list(range(len(cur), len(cur) + n_new)); rng.shuffle(posl)
+                    labs = [pool[p] if p >= len(cur) else cur[p] + 1000 for p in posl]
+                    strad = {'pos': posl, 'labels': labs, 'values': [[float(rng.randint(80, 99)) for _ in range(nfix)] for _ in posl]}
+                    stats['write_kind']['unlimited+straddling list'] += 1
+                cases.append({'kind': 'unlimited', 'tkind': k, 'fixlabs': fixlabs, 'steps': steps, 'overwrite': over, 'straddle': strad, 'fmt': rng.choice(['NETCDF4', 'NETCDF3_CLASSIC']) if all(not isinstance(x, str) for x in fixlabs) else 'NETCDF4'})
         return cases[:n]
 
     @staticmethod
@@ -285,6 +294,19 @@ class Write:
                                 c['_viol'] = ('assigning a DimArray (time labels %r) to positions %d..%d INSIDE the unlimited dimension: the on-disk variable reads %s, the same assignment in memory gives %s'
                                               % (ov['labels'], ov['pos'], ov['pos'] + ov['m'] - 1, json.dumps(c19.obs_array(got), default=str)[:300], json.dumps(c19.obs_array(mem), default=str)[:300]))
                             allv = [list(map(float, row)) for row in mem.values.tolist()]
+                        sd = c.get('straddle')
+                        if sd and c['_viol'] is None:
+                            piece = D.DimArray(np.array(sd['values']), axes=[D.Axis(ops.labs_np(sd['labels'], c['tkind']), 'time'), h.axes['x'][:]])
+                            h['v'].ix[list(sd['pos'])] = piece
+                            n0 = len(alll)
+                            for p, l, row in sorted(zip(sd['pos'], sd['labels'], sd['values'])):
+                                if p >= n0: alll.append(l); allv.append(row)
+                                else: allv[p] = row
+                            got = h['v'].read()
+                            want = D.DimArray(np.array(allv).reshape(len(alll), len(c['fixlabs'])), axes=[D.Axis(ops.labs_np(alll, c['tkind']), 'time'), h.axes['x'][:]])
+                            if json.dumps(c19.obs_array(got), sort_keys=True, default=str) != json.dumps(c19.obs_array(want), sort_keys=True, default=str):
+                                c['_viol'] = ('assigning a DimArray (time labels %r) through the position list %r that straddles the end of the unlimited dimension: the variable reads %s instead of %s'
+                                              % (sd['labels'], sd['pos'], json.dumps(c19.obs_array(got), default=str)[:300], json.dumps(c19.obs_array(want), default=str)[:300]))
                     finally:
                         h.close()
                     back = D.read_nc(f, 'v')
@@ -314,7 +336,7 @@ class Write:
     @staticmethod
     def coq_case(c, res):
         if c['kind'] != 'unlimited' or c.get('_final') is None: return None
-        if c.get('overwrite'): return None      # growth is modelled; the assignment inside the range is compared with the in-memory one (oracle)
+        if c.get('overwrite') or c.get('straddle'): return None      # growth is modelled; the assignment inside the range is compared with the in-memory one (oracle)
         fk = 'O' if isinstance(c['fixlabs'][0], str) else ('f' if isinstance(c['fixlabs'][0], float) else 'i')
         nx = len(c['fixlabs'])
         f0 = ('{| nf_fmt3 := %s; nf_dims := [("time", 0); ("x", %d)]; nf_unl := ["time"]; nf_vars := [("x", {| nv_dims := ["x"]; nv_kind := %s; nv_data := map label_cell %s; nv_attrs := [] |}); '
